@@ -8,7 +8,7 @@ ASSUMPTIONS = [
   "what from_workbook reads of the workbook is the projection `view`; parse_defined_names is an uninterpreted function of the stored workbook (its effect is observed through values only); StaticResult (second component of parsed_formulas) is not modelled",
   "C26_values assumes that the evaluator's inputs are a function of (stored workbook, parsed formulas) — parameter inputs_of — and then cites C07 (plain cells, acyclic, storable results); outside that scope values are compared on the implementation only (snapshots after evaluate on both sides)",
   "numbers in trees are canonical 15-digit texts (C09); the stored integer literal model store_int covers non-negative integer literals below 2^53; other long literals are oracle-only (class number_more_than_15_digits)",
-  "histories run in language en; workbooks with volatile functions (RAND, RANDBETWEEN, NOW, TODAY) are not generated",
+  "vh_hist histories run in language en (the normalisation inputs also in de/fr/es/it models; the reload uses the live model's language); workbooks with volatile functions (RAND, RANDBETWEEN, NOW, TODAY) are not generated",
 ]
 
 def run(cfg):
@@ -30,7 +30,7 @@ def run(cfg):
     return {
         "evaluations": n + meta.get("oracle_checked", 0),
         "distinct_nontrivial": meta.get("distinct_nontrivial", 0),
-        "rule": "every workbook state of seeded user-model histories (vh_hist: 50 x 40 operations quick, 500 x 60 thorough, all operation kinds incl. undo/redo, stopped at the first oracle failure), 60 / 700 formula-rich pool workbooks (3 sheets, global / local / LAMBDA names, 12-31 random formulas of depth <= 4 over every node kind with random explicit parentheses) and 58 fixed formulas that pin the known findings; per state: to_bytes/from_bytes, == on Workbook, parsed trees before = after, evaluate both and compare canonical snapshots (contents, formula texts, values bit-exact, styles, names), second save/load identical; tie: every distinct (environment, sheet, stored text): real R1C1 tokens -> extracted parse_stored = real tree; integer literals below 2^53 (boundaries, ties, random): stored literal = store_int. distinct_nontrivial = distinct stored formula texts",
+        "rule": "every workbook state of seeded user-model histories (vh_hist: 50 x 40 operations quick, 500 x 60 thorough, all operation kinds incl. undo/redo, stopped at the first oracle failure), 60 / 700 formula-rich pool workbooks (3 sheets, global / local / LAMBDA names, 12-31 random formulas of depth <= 4 over every node kind with random explicit parentheses) 62 fixed formulas that pin the known findings, and inputs set_user_input normalises before storing (50 fixed: 1-3 missing closing parentheses nested in calls and arithmetic, leading +/-, lower-case names, localized names / separators in de, fr, es, it models; 20 / 200 histories of generated formulas with dropped parentheses, leading signs, lower case); per state: to_bytes/from_bytes, == on Workbook, parsed trees before = after, evaluate both and compare canonical snapshots (contents, formula texts, values bit-exact, styles, names) and the displayed content of every formula cell, second save/load identical; tie: every distinct (environment, sheet, stored text): real R1C1 tokens -> extracted parse_stored = real tree; integer literals below 2^53 (boundaries, ties, random): stored literal = store_int. distinct_nontrivial = distinct stored formula texts",
         "samples": meta.get("samples", []),
         "disagreements": dis, "n_disagreements": ndis,
         "oracle_failures": meta.get("oracle_failures", []),
